@@ -95,8 +95,10 @@ RewardEq  == EDone(inst, o) => EReward(RI, r, hist) = EReward(inst, o, hist)
 GreedyEq  == hist = <<>> => (PSol(RI, FALSE) = PSol(inst, FALSE) /\ PSol(RI, TRUE) = PSol(inst, TRUE))
 
 (* ------------------------ export for the replay ------------------------ *)
+RECURSIVE PSorted(_)
+PSorted(S) == IF S = {} THEN <<>> ELSE LET x == PLeast(S) IN <<x>> \o PSorted(S \ {x})
 \* every state of the RESTORED copy: its mask and done flag after `hist`
-EmitS == PrintT(<<"S", inst.id, codec.kind, codec.pad, hist, EMask(RI, r), EDone(RI, r)>>)
+EmitS == PrintT(<<"S", inst.id, codec.kind, codec.pad, hist, PSorted(EMask(RI, r)), EDone(RI, r)>>)
 \* terminal behaviours with the reward the restored object must report
 EmitT == EDone(inst, o) => PrintT(<<"T", inst.id, codec.kind, codec.pad, hist, EReward(RI, r, hist)>>)
 \* forced solutions of the restored instance
